@@ -198,11 +198,48 @@ def rule_dc(r):
 RULES = {"common": rule_common, "coc": rule_coc, "fate": rule_fate, "wod": rule_wod, "dc": rule_dc}
 
 
+def terms_of(e, out):
+    """dice terms of a c15 expression tree in source order"""
+    if e[0] in ("d", "f", "coc"):
+        out.append(e)
+    for x in e[1:]:
+        if isinstance(x, list):
+            terms_of(x, out)
+    return out
+
+
+def check_vm_expression(row):
+    """Every dice term of a multi-term expression run by the real parser+VM must, on its own displayed dice, follow its own
+    parameters (catches state leaking from one term to the next). Returns a reason or None."""
+    o = row["m0"]
+    if not o.get("ok"):
+        return None
+    terms = terms_of(row["expr"], [])
+    anns = re.findall(r"(-?\d+)\[([^\[\]=]*)=([^\[\]]*)\]", o["detail"])
+    if len(anns) != len(terms):
+        return None  # an annotation was elided (rule 1.1 / 1.3): nothing to check here
+    for t, (val, expr, text) in zip(terms, anns):
+        if t[0] == "d":
+            pseudo = {"args": [t[1], t[2], t[5], t[6], t[7]], "dmin": None if t[3] is None else str(t[3]), "dmax": None if t[4] is None else str(t[4]),
+                      "out": [val], "text": text, "mode": 0, "flag": False}
+            why = rule_common(pseudo)
+        elif t[0] == "coc":
+            pseudo = {"args": [t[2]], "out": [val], "text": text, "flag": bool(t[1]), "mode": 0}
+            why = rule_coc(pseudo)
+        else:
+            pseudo = {"out": [val], "text": text}
+            why = rule_fate(pseudo)
+        if why:
+            return f"term `{expr}` -> {val}[{text}]: {why}"
+    return None
+
+
 def run(res, tier, seed):
     common.build_harness()
     n = 2500 if tier == "quick" else 15000
     rows, _ = common.run_harness(["c04", "-seed", seed, "-n", n, "-modes", "all"], timeout=600)
     vmrows, _ = common.run_harness(["c04-vm", "-seed", seed], timeout=600)
+    exprrows, _ = common.run_harness(["c15", "-seed", seed, "-n", 800 if tier == "quick" else 6000], timeout=600)
     calls = {}
     for r in rows:
         calls[r["call"]] = calls.get(r["call"], 0) + 1
@@ -238,6 +275,13 @@ def run(res, tier, seed):
             found += 1
             if found >= 3:
                 break
+    for r in exprrows:
+        res.count("expr:" + r["text"] + r["hi"], nontrivial=True)
+        why = check_vm_expression(r)
+        if why and found < 4:
+            res.violation({"what": "a dice term inside a larger expression does not follow its own parameters: " + why, "text": r["text"],
+                           "seed_state": [r["hi"], r["lo"]], "detail": r["m0"]["detail"], "value": r["m0"].get("str")})
+            found += 1
     for r in vmrows:
         o = r["out"]
         if o.get("panic"):
@@ -265,9 +309,19 @@ def run(res, tier, seed):
         info = common.check_property_file("C04")
         res.proof(info, "cd coq && make && coqc -Q . DS Properties/C04.v  (Print Assumptions parsed)")
         bad = dicecases.correspond(common, rows, "c04")
-        res.cov["correspondence"] = {"cases": len(rows), "disagreements": len(bad)}
+        import c15 as c15mod
+        okrows = [r for r in exprrows if r["m-1"]["ok"] and r["m0"]["ok"] and r["m1"]["ok"]]
+        ks = list(range(0, len(okrows), 300))
+        outs = common.coq_eval_many([(f"c04e_{k}", c15mod.vm_cases_v(okrows[k:k + 300])) for k in ks])
+        bade = []
+        for k, out in zip(ks, outs):
+            bade += [k + int(x.replace("%N", "")) for x in common.parse_coq_list(out, "bad")]
+        res.cov["correspondence"] = {"cases": len(rows), "disagreements": len(bad), "vm_expression_cases": len(okrows), "vm_expression_disagreements": len(bade)}
         if bad:
             broken = Broken("correspondence Corr04.c04_ok (Model/Dice.v vs Roll* functions)", {"first": [rows[i] for i in bad[:3]]})
+        elif bade:
+            broken = Broken("correspondence Corr15.c15_ok (dice expressions through the real parser+VM vs Model/DiceExpr.deval)",
+                            {"first": [{"text": okrows[i]["text"], "go": okrows[i]["m0"].get("str"), "detail": okrows[i]["m0"].get("detail")} for i in bade[:3]]})
     except Broken as b:
         broken = b
     if broken and not found:
